@@ -573,6 +573,12 @@ func globConcCases(run *vh.Run) {
 	type key struct{ size, threads, n, keys, panics, wrong int }
 	seen := map[key]int{}
 	var order []key
+	type linCase struct {
+		term   string
+		sample interface{}
+	}
+	linSeen := map[string]bool{}
+	var linCases []linCase
 	rounds := run.Scale(1000, 40000)
 	for i := 0; i < rounds; i++ {
 		size := []int{1, 2, 3, 4}[r.Intn(4)]
@@ -609,6 +615,23 @@ func globConcCases(run *vh.Run) {
 		}
 		close(startc)
 		wg.Wait()
+		// the state right after the concurrent Gets must be the result of SOME serial order of them
+		if per == 1 && threads >= 2 && threads <= 5 && panics == 0 {
+			l1, h1, n1, k1 := c.VerifC06State()
+			sort.Strings(k1)
+			var pre, pats []string
+			for k := 0; k < size-1; k++ {
+				pre = append(pre, fmt.Sprintf("pre%d.*", k))
+			}
+			for g := 0; g < threads; g++ {
+				pats = append(pats, fmt.Sprintf("g%dk0.*", g))
+			}
+			term := vh.App("CGlobLin", strconv.Itoa(size), strList(pre), strList(pats), strList(l1), strconv.Itoa(h1), strconv.Itoa(n1), strList(k1))
+			if !linSeen[term] && len(linSeen) < run.Scale(40, 400) {
+				linSeen[term] = true
+				linCases = append(linCases, linCase{term, map[string]interface{}{"size": size, "goroutines": threads, "l": l1, "h": h1, "n": n1, "keys": k1}})
+			}
+		}
 		// afterwards, alone: more misses than the ring has slots
 		for k := 0; k < 2*size+3; k++ {
 			pat := fmt.Sprintf("after%d.*", k)
@@ -635,6 +658,9 @@ func globConcCases(run *vh.Run) {
 		}
 		run.Add(class, vh.App("CGlobConc", strconv.Itoa(k.size), strconv.Itoa(k.threads), strconv.Itoa(k.n), strconv.Itoa(k.keys), strconv.Itoa(k.panics), strconv.Itoa(k.wrong)),
 			map[string]interface{}{"size": k.size, "goroutines": k.threads, "n_after": k.n, "map_entries_after": k.keys, "recovered_panics": k.panics, "wrong_results": k.wrong, "rounds_with_this_outcome": seen[k]})
+	}
+	for _, lc := range linCases {
+		run.Add("glob-conc-linearisation", lc.term, lc.sample)
 	}
 	run.Notes["glob_conc_rounds"] = rounds
 }
@@ -728,6 +754,9 @@ func rrCases(run *vh.Run) {
 				total = (total + G - 1) / G * G
 				per := total / G
 				c0 := uint64(r.Intn(3 * len(ring)))
+				if rep == 1 && len(ring) <= 100 {
+					c0 = ^uint64(0) - uint64(r.Intn(total)) // the uint64 cursor wraps during the run
+				}
 				ro.VerifC06SetCursor(c0)
 				counts := make([][]int, G)
 				bad := int64(0)
@@ -791,13 +820,25 @@ func rrPerTable(run *vh.Run) {
 	seen := map[outcome]int{}
 	sample := map[outcome][]int{}
 	totalGens, servedGens := 0, 0
-	for _, k := range []int{2, 3} {
+	rings := map[int][]int{}
+	for _, k := range []int{2, 3, -2} { // -2: two targets with weights 0.25 / 0.75 (a 10000-slot ring)
 		var lines []string
+		weighted := k < 0
+		if weighted {
+			k = -k
+		}
 		for j := 0; j < k; j++ {
-			lines = append(lines, fmt.Sprintf("route add s%d gen.example/ http://t%d.internal:80/", j, j))
+			w := ""
+			if weighted && j == 0 {
+				w = " weight 0.25"
+			}
+			lines = append(lines, fmt.Sprintf("route add s%d gen.example/ http://t%d.internal:80/%s", j, j, w))
 		}
 		text := strings.Join(lines, "\n")
 		nGen := run.Scale(700, 6000)
+		if weighted {
+			nGen = run.Scale(40, 400) // few, long-lived generations: every case carries the 10000-slot ring
+		}
 		G := 8
 		var reg sync.Map // *route.Target -> genTarget
 		routes := make([]*route.Route, 0, nGen)
@@ -849,6 +890,9 @@ func rrPerTable(run *vh.Run) {
 			if gen%64 == 0 {
 				time.Sleep(200 * time.Microsecond)
 			}
+			if weighted {
+				time.Sleep(3 * time.Millisecond)
+			}
 		}
 		time.Sleep(2 * time.Millisecond)
 		close(stop)
@@ -857,8 +901,15 @@ func rrPerTable(run *vh.Run) {
 		if bad > 0 {
 			run.Violation(run.NextID(), "rr lookup during table replacement returned a target of no installed table", nil)
 		}
-		ring := routes[0].VerifC06Ring()
+		kk := k
+		if weighted {
+			kk = -k
+		}
+		rings[kk] = routes[0].VerifC06Ring()
 		for gen, ro := range routes {
+			if fmt.Sprint(ro.VerifC06Ring()) != fmt.Sprint(rings[kk]) {
+				run.Violation(run.NextID(), "tables built from the same text have different rings", nil)
+			}
 			sum := make([]int, k)
 			n := 0
 			for g := 0; g < G; g++ {
@@ -871,11 +922,10 @@ func rrPerTable(run *vh.Run) {
 			if n > 0 {
 				servedGens++
 			}
-			o := outcome{k, natList(sum), n, ro.VerifC06Cursor()}
+			o := outcome{kk, natList(sum), n, ro.VerifC06Cursor()}
 			seen[o]++
 			sample[o] = sum
 		}
-		_ = ring
 	}
 	// distinct outcomes become cases; the ones whose counts are not within 1 of each other or whose cursor
 	// is not the number of picks first, so that the cap never hides them (the verdict is Coq's)
@@ -893,7 +943,7 @@ func rrPerTable(run *vh.Run) {
 				mx = c
 			}
 		}
-		return mx-mn > 1 || uint64(o.n) != o.cursor
+		return (o.k > 0 && mx-mn > 1) || uint64(o.n) != o.cursor
 	}
 	sort.Slice(outs, func(i, j int) bool {
 		if odd(outs[i]) != odd(outs[j]) {
@@ -909,15 +959,20 @@ func rrPerTable(run *vh.Run) {
 	})
 	perK := map[int]int{}
 	for _, o := range outs {
-		if perK[o.k] >= run.Scale(40, 400) && !(odd(o) && perK[o.k] < 400) {
+		limit := run.Scale(40, 400)
+		if o.k < 0 {
+			limit = run.Scale(5, 40)
+		}
+		if perK[o.k] >= limit && !(odd(o) && perK[o.k] < 10*limit) {
 			continue
 		}
 		perK[o.k]++
-		ring := make([]int, o.k)
-		for j := range ring {
-			ring[j] = j
+		ring := rings[o.k] // the route's real ring, read through the hook
+		class := fmt.Sprintf("rr-per-table-%d-targets", o.k)
+		if o.k < 0 {
+			class = "rr-per-table-weighted-25-75"
 		}
-		run.Add(fmt.Sprintf("rr-per-table-%d-targets", o.k), vh.App("CRRTable", natList(ring), vh.N64(0), strconv.Itoa(o.n), o.counts, vh.N64(o.cursor)),
+		run.Add(class, vh.App("CRRTable", natList(ring), vh.N64(0), strconv.Itoa(o.n), o.counts, vh.N64(o.cursor)),
 			map[string]interface{}{"targets": o.k, "picks_served_by_this_table": o.n, "picks_per_target": sample[o], "cursor_after": o.cursor, "tables_with_this_outcome": seen[o]})
 	}
 	run.Notes["rr_per_table_generations"] = totalGens
@@ -1015,8 +1070,11 @@ func rndCases(run *vh.Run) {
 func lookupCases(run *vh.Run) {
 	r := run.Rng
 	gc := route.NewGlobCache(4)
+	// a redirect to the request's own URL: Table.Lookup picks a target of the route and then skips it
+	selfT := tmplT{"http://$host/$path", []string{"http://", hhole, slash, hole}}
+	lkTmpls := append(append([]tmplT{}, tmpls...), selfT, selfT)
 	tmplByHost := map[string]tmplT{}
-	for i := 0; i < run.Scale(12, 200); i++ {
+	for i := 0; i < run.Scale(16, 240); i++ {
 		// hosts: disjoint by construction (distinct second-level names), so that at most one
 		// pattern matches a request and the visiting order is [that host; ""]
 		nh := 2 + r.Intn(4)
@@ -1031,17 +1089,31 @@ func lookupCases(run *vh.Run) {
 		}
 		hosts = append(hosts, "")
 		svc := 0
+		directed := i%4 == 0 // every fourth table: self-redirect routes with two targets on the host routes
 		for _, h := range hosts {
 			for _, p := range []string{"/", "/a", "/a/b", "/img"} {
-				if r.Intn(3) == 0 {
+				if r.Intn(3) == 0 && !(directed && p == "/") {
 					continue
 				}
-				switch r.Intn(4) {
+				kind := r.Intn(4)
+				if directed && p == "/" {
+					kind = 1
+					if h != "" {
+						kind = 0
+					}
+				}
+				switch kind {
 				case 0:
-					t := tmpls[r.Intn(len(tmpls))]
+					t := lkTmpls[r.Intn(len(lkTmpls))]
+					nt := 1 + r.Intn(2)
+					if directed && p == "/" {
+						t, nt = selfT, 2
+					}
 					tmplByHost[h+p] = t
-					lines = append(lines, fmt.Sprintf(`route add s%d %s%s %s opts "redirect=302"`, svc, h, p, t.url))
-					svc++
+					for k := 0; k < nt; k++ { // several services redirecting to the same template: a ring of redirect targets
+						lines = append(lines, fmt.Sprintf(`route add s%d %s%s %s opts "redirect=302"`, svc, h, p, t.url))
+						svc++
+					}
 				default:
 					nt := 1 + r.Intn(3)
 					for k := 0; k < nt; k++ {
@@ -1062,8 +1134,11 @@ func lookupCases(run *vh.Run) {
 		tbl := mustTable(strings.Join(lines, "\n"))
 		for q := 0; q < 6; q++ {
 			hi := r.Intn(len(hosts))
+			if directed && q < 4 {
+				hi = r.Intn(nh) // a host whose "/" route redirects to the request's own URL
+			}
 			reqHost := strings.Replace(hosts[hi], "*", []string{"x", "www", "a.b"}[r.Intn(3)], 1)
-			if hosts[hi] == "" || r.Intn(8) == 0 {
+			if hosts[hi] == "" || (r.Intn(8) == 0 && !(directed && q < 4)) {
 				reqHost = "nowhere.test"
 			}
 			path := []string{"/", "/a", "/a/b/c", "/ab", "/img/x.png", "/zzz", "/a/b"}[r.Intn(7)]
@@ -1085,51 +1160,101 @@ func lookupCases(run *vh.Run) {
 			}
 			cand = append(cand, "")
 			cursor := uint64(r.Intn(20000))
-			var hostTerms []string
-			for _, h := range cand {
-				var rts []string
-				for _, ro := range tbl[strings.ToLower(h)] {
-					ro.VerifC06SetCursor(cursor)
-					red := vh.None
-					if len(ro.Targets) > 0 && ro.Targets[0].RedirectCode != 0 {
-						red = vh.Some(tmplByHost[h+ro.Path].coq())
+			setAll := func(f func(ro *route.Route) uint64) {
+				for _, rts := range tbl {
+					for _, ro := range rts {
+						ro.VerifC06SetCursor(f(ro))
 					}
-					rts = append(rts, fmt.Sprintf("{| r_path := %s; r_ntargets := %d; r_ring := %s; r_redirect := %s |}",
-						vh.HxS(ro.Path), len(ro.Targets), natList(ro.VerifC06Ring()), red))
 				}
-				hostTerms = append(hostTerms, vh.List(rts))
 			}
-			req := newReq(reqHost, path, "10.0.0.1:1")
-			var tg *route.Target
-			pv, _ := guarded(func() { tg = tbl.Lookup(req, "", rrPick, prefixMatch, gc, false) })
-			if pv != nil {
-				run.Violation(run.NextID(), fmt.Sprint("Table.Lookup panicked: ", pv), map[string]interface{}{"table": lines, "host": reqHost, "path": path})
-				continue
-			}
-			impl := vh.None
-			human := "no route"
-			if tg != nil {
-				found := false
+			// identify the answer among the candidate hosts' routes
+			answer := func(tg *route.Target) (term, human string, ans *route.Route) {
+				if tg == nil {
+					return vh.None, "no route", nil
+				}
 				for ci, h := range cand {
 					for ri, ro := range tbl[strings.ToLower(h)] {
-						if ti := targetIndex(ro, tg); ti >= 0 && !found {
-							found = true
+						if ti := targetIndex(ro, tg); ti >= 0 {
 							loc := vh.None
 							if tg.RedirectCode != 0 && tg.RedirectURL != nil {
 								loc = vh.Some(vh.HxS(tg.RedirectURL.String()))
 							}
-							impl = vh.Some(fmt.Sprintf("(%d, %d, %d, %s)", ci, ri, ti, loc))
-							human = fmt.Sprintf("host %q route %s target %d", h, ro.Path, ti)
+							return vh.Some(fmt.Sprintf("(%d, %d, %d, %s)", ci, ri, ti, loc)), fmt.Sprintf("host %q route %s target %d", h, ro.Path, ti), ro
 						}
 					}
 				}
-				if !found {
-					impl = vh.Some("(99, 99, 99, None)")
-					human = "a target outside the candidate hosts"
-				}
+				return vh.Some("(99, 99, 99, None)"), "a target outside the candidate hosts", nil
 			}
-			run.Add("lookup-seq", vh.App("CLookup", vh.List(hostTerms), vh.HxS(path), vh.HxS(reqHost), vh.N64(cursor), impl),
-				map[string]interface{}{"table": lines, "host": reqHost, "path": path, "cursor": cursor, "answer": human})
+			badRing := false
+			var hostTerms []string
+			for _, h := range cand {
+				var rts []string
+				for _, ro := range tbl[strings.ToLower(h)] {
+					red := vh.None
+					if len(ro.Targets) > 0 && ro.Targets[0].RedirectCode != 0 {
+						red = vh.Some(tmplByHost[h+ro.Path].coq())
+					}
+					ring := ro.VerifC06Ring()
+					for _, x := range ring {
+						if x < 0 {
+							badRing = true
+						}
+					}
+					rts = append(rts, fmt.Sprintf("{| r_path := %s; r_ntargets := %d; r_ring := %s; r_redirect := %s |}",
+						vh.HxS(ro.Path), len(ro.Targets), natList(ring), red))
+				}
+				hostTerms = append(hostTerms, vh.List(rts))
+			}
+			if badRing {
+				run.Exclude("lookup case with an empty ring slot")
+				continue
+			}
+			cursorsOf := func() string {
+				var rows []string
+				for _, h := range cand {
+					var row []string
+					for _, ro := range tbl[strings.ToLower(h)] {
+						row = append(row, vh.N64(ro.VerifC06Cursor()))
+					}
+					rows = append(rows, vh.List(row))
+				}
+				return vh.List(rows)
+			}
+			// run 1: every cursor = cursor, the shared cache
+			setAll(func(*route.Route) uint64 { return cursor })
+			var tg *route.Target
+			pv, _ := guarded(func() { tg = tbl.Lookup(newReq(reqHost, path, "10.0.0.1:1"), "", rrPick, prefixMatch, gc, false) })
+			if pv != nil {
+				run.Violation(run.NextID(), fmt.Sprint("Table.Lookup panicked: ", pv), map[string]interface{}{"table": lines, "host": reqHost, "path": path})
+				continue
+			}
+			impl, human, ans := answer(tg)
+			after := cursorsOf()
+			// run 2: the answering route's cursor as before, every other route's cursor different; another cache
+			// (tiny, already full of other patterns)
+			setAll(func(ro *route.Route) uint64 {
+				if ro == ans {
+					return cursor
+				}
+				return uint64(r.Intn(50000)) + 1
+			})
+			others := cursorsOf()
+			gc2 := route.NewGlobCache(2)
+			gc2.Get("junk1.*")
+			gc2.Get("junk2.*")
+			var tg2 *route.Target
+			pv, _ = guarded(func() { tg2 = tbl.Lookup(newReq(reqHost, path, "10.0.0.1:1"), "", rrPick, prefixMatch, gc2, false) })
+			if pv != nil {
+				run.Violation(run.NextID(), fmt.Sprint("Table.Lookup panicked: ", pv), map[string]interface{}{"table": lines, "host": reqHost, "path": path})
+				continue
+			}
+			impl2, human2, _ := answer(tg2)
+			class := "lookup-seq"
+			if directed {
+				class = "lookup-seq-self-redirect-tables"
+			}
+			run.Add(class, vh.App("CLookup", vh.List(hostTerms), vh.HxS(path), vh.HxS(reqHost), vh.HxS("http"), vh.N64(cursor), after, others, impl, impl2),
+				map[string]interface{}{"table": lines, "host": reqHost, "path": path, "cursor": cursor, "answer": human, "answer_with_other_cursors_and_cache": human2})
 		}
 	}
 }
@@ -1561,7 +1686,7 @@ func sortedStrKeys(m map[string]string) []string {
 func phase(run *vh.Run, name string, f func(*vh.Run)) {
 	done := make(chan struct{})
 	go func() { f(run); close(done) }()
-	limit := time.Duration(run.Scale(150, 1500)) * time.Second
+	limit := time.Duration(run.Scale(450, 1800)) * time.Second
 	select {
 	case <-done:
 	case <-time.After(limit):
